@@ -1670,6 +1670,16 @@ fn macro_sites(r: &mut Report) {
 // main
 // ---------------------------------------------------------------------------
 
+/// AddressSanitizer interns one stack trace per distinct allocation *path*; the recursive,
+/// continuation-passing builders above make those paths combinatorial (its stack depot grew by
+/// ~60 KB per evaluation, tens of GB at thorough sizes). Short allocation contexts bound the depot;
+/// the access stack of a report is unaffected. Defaults only: `ASAN_OPTIONS` still overrides, and
+/// the symbol is simply unused in non-sanitizer builds.
+#[no_mangle]
+pub extern "C" fn __asan_default_options() -> *const std::os::raw::c_char {
+    b"malloc_context_size=6\0".as_ptr() as *const std::os::raw::c_char
+}
+
 fn dynamic_case(r: &mut Report, seed: u64, i: u64) {
     let mut x = Gen::new(Rng::stream(seed, &[2, 1, i]));
     let node = gen_node(&mut x, 0);
